@@ -20,6 +20,7 @@ import (
 	"context"
 	"errors"
 	"fmt"
+	"io"
 	stdnet "net"
 	"os"
 	"os/exec"
@@ -713,6 +714,9 @@ func isFatalError(err error) bool {
 	case errors.Is(err, ttrpc.ErrProtocol):
 		return true
 	case errors.Is(err, context.DeadlineExceeded):
+		return true
+	case errors.Is(err, io.ErrUnexpectedEOF):
+		// the connection went away in the middle of a (multiplexer) frame
 		return true
 	}
 	return false
